@@ -161,9 +161,38 @@ def family_d():
     return out
 
 
+def family_e():
+    """a top-level process with several provider names is duplicated BEFORE its first step, so whatever its body is -
+    a call with or without explicit self, a cut, a receive - is copied as it stands, with the annotations the
+    checker left on the occurrences of its free names (the direction of the forwards created for them is read there)"""
+    out = []
+    for ty, cbody in (("1", "close self"), ("N", "case self (go<s> => close s)")):
+        f = "let f(x : %s) : 1 = %s close self\n" % (ty, use(ty, "x", "x"))
+        bodies = {
+            "callself": "f(self, c)",
+            "call": "f(c)",
+            "direct": "%s close self" % use(ty, "c", "c"),
+            "cut": "k <- new f(c); wait k; close self",
+            "cutself": "k <- new f(self, c); wait k; close self",
+            "print": "print pre; f(self, c)",
+        }
+        for name, body in bodies.items():
+            for provs in ("a, b", "a, b, e"):
+                waits = "".join("wait %s; " % x.strip() for x in provs.split(","))
+                out.append(("E:%s:%s:%d" % (ty, name, len(provs.split(","))), PRE + f + "prc[%s] : 1 = %s\nprc[c] : %s = %s\nprc[d] : 1 = %sprint done; close self\n" % (provs, body, ty, cbody, waits)))
+    return out
+
+
+def family_f():
+    """producer/consumer pairs over recursive types written with different periods (lib/vlib/eqstress.py): the accepted ones
+    run to the end; the rejected ones would hit a missing branch if the checker let them through"""
+    from . import eqstress
+    return [("F:" + k.split(":", 1)[1], t) for _, k, t in eqstress.programs() if "omega" in k]
+
+
 def programs():
     seen, out = set(), []
-    for fam in (family_a, family_b, family_c, family_d):
+    for fam in (family_a, family_b, family_c, family_d, family_e, family_f):
         for i, t in fam():
             if t not in seen:
                 seen.add(t)
